@@ -1,5 +1,6 @@
 import Gv.Oracle.Common
 import Gv.Model.Seq
+import Gv.Oracle.Translate
 import Gv.Spec.Genetic
 /-! Oracle handlers for the sequence-level operations (C05 codons/frames, C06). -/
 namespace Gv.Oracle.SeqOps
@@ -111,6 +112,6 @@ def handle : Handler := fun op args impl =>
     else
       let ok := rows.all fun r => (detectAlphabetSeq r.2 == NUCLEOTIDS || detectAlphabetSeq r.2 == BOTH)
       some ⟨render model, if ok then verdictOf (impl == render spec) "altranslate-rows-or-length" else "na"⟩
-  | _, _ => none
+  | _, _ => TranslateOps.handle op args impl
 
 end Gv.Oracle.SeqOps
